@@ -22,7 +22,7 @@ CONTEXTS = ('return', 'assign', 'if', 'ifelse', 'tryfinally', 'tryexcept', 'with
             'nested', 'lambda', 'decoy_before', 'decoy_after',
             'arg_of_call', 'nested_arg_of_call', 'lambda_arg_of_call', 'nested2', 'result_attr', 'ifelse_unres')
 NESTED_CONTEXTS = ('nested', 'lambda', 'nested_arg_of_call', 'lambda_arg_of_call', 'nested2')
-ROUTES = ('global', 'closure', 'attr1', 'attr2', 'method', 'param', 'partial')
+ROUTES = ('global', 'closure', 'attr1', 'attr2', 'method', 'param', 'partial', 'wrapsdeco')
 TAINTS_ANY = ('rebind', 'augassign', 'delrebind', 'fortarget', 'withas', 'walrus', 'starunpack', 'nonlocal',
               'importas', 'fromimportas', 'defname', 'classname', 'matchcapture', 'matchstar')
 TAINTS_VK = ('methodcall', 'itemstore', 'handover', 'handoverkw')
@@ -34,7 +34,7 @@ def star(outer, kind):
 
 def callee_ref(route, uid, j):
     base = 'C%s_%d' % (uid, j)
-    if route == 'global':
+    if route in ('global', 'wrapsdeco'):
         return base
     if route == 'closure':
         return 'cal%d' % j
@@ -235,6 +235,9 @@ def render(prog, uid):
         else:
             lines.append('W%s = functools.partial(F%s, fn0=C%s_0)' % (uid, uid, uid))
         return '\n'.join(lines) + '\n'
+    if prog.route == 'wrapsdeco':
+        # the same wrapper under a decorator that only wraps (functools.wraps + pass-through)
+        lines.append('@ONLYWRAP')
     lines.append('def W%s(%s):' % (uid, outer_txt))
     lines.extend(ind + ln for ln in body_lines(prog, uid))
     return '\n'.join(lines) + '\n'
